@@ -496,6 +496,13 @@ func (c *Ctx) Finish() int {
 		}
 		lines = append(lines, fmt.Sprintf("VIOLATION property=%s replay=%s key=%s count=%d%s :: %s", id, path, key, r.count, extra, r.fails[0].Msg))
 	}
+	// a conversion that panicked inside a block helper (its results so far were kept, so the oracles may
+	// have seen nothing wrong) is a panic on a valid call all the same
+	if ExtraNote != nil && len(c.escaped) == 0 {
+		if n := ExtraNote(); n != "" {
+			c.escaped = append(c.escaped, escapedPanic{n, "a conversion called on two valid buffers of equal channel count", ""})
+		}
+	}
 	// panics of the library that escaped from calls outside any guarded case
 	if len(c.escaped) > 0 {
 		e := c.escaped[0]
@@ -792,6 +799,14 @@ func (c *Ctx) ReverseOrderPass(binary string) *WorkerResult {
 	}
 	c.Set("reverse_order_pass_evaluations", res.Executions)
 	return res
+}
+
+// ReverseOrderPassAsync starts the reverse-order process in the background (it is a process of its own:
+// nothing it does can disturb the order of calls in this one) and returns the function that waits for it.
+func (c *Ctx) ReverseOrderPassAsync(binary string) func() *WorkerResult {
+	ch := make(chan *WorkerResult, 1)
+	go func() { ch <- c.ReverseOrderPass(binary) }()
+	return func() *WorkerResult { return <-ch }
 }
 
 // SweepWorker is the Worker of the sweep checks: runs the check itself (reverse order) and
